@@ -110,7 +110,8 @@ Definition class_period (G R : bmat) (i : nat) : nat :=
                  (seq 1 (2 * n * n)) (bident n, 0)).
 
 (* Some mask when the property's guard holds: every class with a cycle is
-   aperiodic and the largest closed class is larger than every non-closed class *)
+   aperiodic and the largest closed class is larger than every other (non-closed) class,
+   singletons without a cycle included *)
 Definition mask_spec (G : bmat) : option (list bool) :=
   let n := length G in
   let R := reach G in
@@ -120,7 +121,17 @@ Definition mask_spec (G : bmat) : option (list bool) :=
   let size := map (fun i => length (class_of R i)) idx in
   let aper := forallb (fun i => negb (nth i cyc false) || Nat.eqb (class_period G R i) 1) idx in
   let maxclosed := fold_left Nat.max (map (fun i => if nth i closed false then nth i size 0 else 0) idx) 0 in
-  let dominated := forallb (fun i => nth i closed false || negb (nth i cyc false) || Nat.ltb (nth i size 0) maxclosed) idx in
+  let dominated := forallb (fun i => nth i closed false || Nat.ltb (nth i size 0) maxclosed) idx in
   if aper && dominated && Nat.ltb 0 maxclosed then
     Some (map (fun i => nth i closed false && Nat.eqb (nth i size 0) maxclosed) idx)
   else None.
+
+(* flags used to decide which clause of C04 applies *)
+Definition all_classes_aperiodic (G : bmat) : bool :=
+  let R := reach G in
+  forallb (fun i => negb (has_internal_edge G R i) || Nat.eqb (class_period G R i) 1) (seq 0 (length G)).
+(* number of closed classes (with a cycle): count class representatives *)
+Definition n_closed_classes (G : bmat) : nat :=
+  let R := reach G in
+  length (filter (fun i => class_closed G R i && has_internal_edge G R i
+                           && Nat.eqb (hd i (class_of R i)) i) (seq 0 (length G))).
